@@ -633,7 +633,8 @@ Proof.
     destruct (find _ (t_vals cn)); reflexivity.
 Qed.
 
-(** the tree as it is (no repair at all) finds the value the faithful machine finds *)
+(** the pinned tree (no repair at all: before e897fef / 88da16a / 16cf34b) finds the value the
+    pinned machine ([find_in true]) finds *)
 Definition found_strip (f : found V) : option (V * list str) :=
   match f with Found v ks _ => Some (v, ks) | NoMatch => None end.
 
